@@ -179,4 +179,204 @@ theorem slice_f32 {vw vh dx dy ax ay : F32} (h : Hyp vw vh dx dy ax ay) :
   · left; rw [e]; exact place_touch h.hdx.1 h.hax.1 h.hdx.2 h.hax.2.1 h.hax.2.2
   · right; rw [e]; exact place_touch h.hdy.1 h.hay.1 h.hdy.2 h.hay.2.1 h.hay.2.2
 
+
+/-! ## a concrete sufficient condition: all four sizes in `[2^-30, 2^30]` -/
+
+theorem two_minN_le : 2 * minN ≤ 1 / 1237940039285380274899124224 := by
+  unfold minN pow2; norm_num
+
+theorem le_maxv8 : (1237940039285380274899124224 : ℚ) ≤ maxv / 8 := by
+  unfold maxv pow2; norm_num
+
+theorem div_bounds {a b la ha lb hb : ℚ} (h0 : 0 ≤ la) (hlb : 0 < lb) (h1 : la ≤ a) (h2 : a ≤ ha)
+    (h3 : lb ≤ b) (h4 : b ≤ hb) : la / hb ≤ a / b ∧ a / b ≤ ha / lb := by
+  have hb0 : 0 < b := lt_of_lt_of_le hlb h3
+  have hhb : 0 < hb := lt_of_lt_of_le hb0 h4
+  constructor
+  · rw [div_le_div_iff₀ hhb hb0]; exact mul_le_mul h1 h4 hb0.le (le_trans h0 h1)
+  · rw [div_le_div_iff₀ hb0 hlb]; exact mul_le_mul h2 h3 hlb.le (le_trans (le_trans h0 h1) h2)
+
+theorem mul_bounds {a b la ha lb hb : ℚ} (h0 : 0 ≤ la) (hlb : 0 ≤ lb) (h1 : la ≤ a) (h2 : a ≤ ha)
+    (h3 : lb ≤ b) (h4 : b ≤ hb) : la * lb ≤ a * b ∧ a * b ≤ ha * hb :=
+  ⟨mul_le_mul h1 h3 hlb (le_trans h0 h1), mul_le_mul h2 h4 (le_trans hlb h3) (le_trans (le_trans h0 h1) h2)⟩
+
+/-- `2^-30 ≤ x ≤ 2^30` -/
+def In30 (x : ℚ) : Prop := 1 / 1073741824 ≤ x ∧ x ≤ 1073741824
+
+/-- **the range hypothesis follows from all four sizes lying in `[2^-30, 2^30]`** -/
+theorem inRange_of_in30 {vw vh dx dy : ℚ} (h1 : In30 vw) (h2 : In30 vh) (h3 : In30 dx) (h4 : In30 dy) :
+    InRange vw vh dx dy := by
+  have a := two_minN_le
+  have b := le_maxv8
+  unfold In30 at *
+  have r := div_bounds (by norm_num) (by norm_num) h1.1 h1.2 h2.1 h2.2
+  have c := div_bounds (by norm_num) (by norm_num) h3.1 h3.2 h4.1 h4.2
+  have fh := div_bounds (by norm_num) (by norm_num) h3.1 h3.2 r.1 r.2
+  have fw := mul_bounds (by norm_num) (by norm_num) h4.1 h4.2 r.1 r.2
+  norm_num at r c fh fw
+  refine ⟨⟨?_, ?_⟩, ⟨?_, ?_⟩, ⟨?_, ?_⟩, ⟨?_, ?_⟩, ⟨?_, ?_⟩, ⟨?_, ?_⟩⟩ <;> linarith [r.1, r.2, c.1, c.2, fh.1, fh.2, fw.1, fw.2]
+
+/-! ### … as a decidable condition on bit patterns -/
+
+/-- bit pattern of a positive normal float in `[2^-30, 2^30]`: `0x30800000 ≤ bits ≤ 0x4E800000` -/
+def Sized (a : F32) : Prop := 813694976 ≤ a.nb ∧ a.nb ≤ 1317011456
+instance (a : F32) : Decidable (Sized a) := by unfold Sized; infer_instance
+
+/-- bit pattern of a float in `[+0, 1]`: `bits ≤ 0x3F800000` -/
+def FracB (a : F32) : Prop := a.nb ≤ 1065353216
+instance (a : F32) : Decidable (FracB a) := by unfold FracB; infer_instance
+
+theorem bval_lo30 : bval 813694976 = 1 / 1073741824 := by
+  have h1 : negB32 813694976 = false := by decide
+  have h2 : mantB 813694976 = 8388608 := by decide
+  have h3 : expB 813694976 = -53 := by decide
+  unfold bval sval; rw [h1, h2, h3]; unfold pow2; norm_num
+
+theorem bval_hi30 : bval 1317011456 = 1073741824 := by
+  have h1 : negB32 1317011456 = false := by decide
+  have h2 : mantB 1317011456 = 8388608 := by decide
+  have h3 : expB 1317011456 = 7 := by decide
+  unfold bval sval; rw [h1, h2, h3]; unfold pow2; norm_num
+
+theorem bval_one : bval 1065353216 = 1 := by
+  have h1 : negB32 1065353216 = false := by decide
+  have h2 : mantB 1065353216 = 8388608 := by decide
+  have h3 : expB 1065353216 = -23 := by decide
+  unfold bval sval; rw [h1, h2, h3]; unfold pow2; norm_num
+
+theorem key_pos (b : Nat) (h : b < 2147483648) : key b = b := by unfold key; rw [if_neg (by omega)]
+
+theorem sized_spec {a : F32} (h : Sized a) : FP a ∧ In30 (val a) := by
+  obtain ⟨h1, h2⟩ := h
+  have fa : Fn a := by unfold Fn FloatMono32.Fin FinB; omega
+  have f1 : FinB 813694976 := by decide
+  have f2 : FinB 1317011456 := by decide
+  have k1 := (key_le_iff 813694976 a.nb (by norm_num) (nb_lt a) f1 fa).1
+    (by rw [key_pos _ (by norm_num), key_pos _ (by omega)]; exact_mod_cast h1)
+  have k2 := (key_le_iff a.nb 1317011456 (nb_lt a) (by norm_num) fa f2).1
+    (by rw [key_pos _ (by omega), key_pos _ (by norm_num)]; exact_mod_cast h2)
+  rw [bval_lo30] at k1; rw [bval_hi30] at k2
+  exact ⟨⟨fa, lt_of_lt_of_le (by norm_num) k1⟩, k1, k2⟩
+
+theorem fracB_spec {a : F32} (h : FracB a) : Frac a := by
+  unfold FracB at h
+  have fa : Fn a := by unfold Fn FloatMono32.Fin FinB; omega
+  have f0 : FinB 0 := by decide
+  have f1 : FinB 1065353216 := by decide
+  have k1 := (key_le_iff 0 a.nb (by norm_num) (nb_lt a) f0 fa).1
+    (by rw [key_pos _ (by norm_num), key_pos _ (by omega)]; exact_mod_cast Nat.zero_le _)
+  have k2 := (key_le_iff a.nb 1065353216 (nb_lt a) (by norm_num) fa f1).1
+    (by rw [key_pos _ (by omega), key_pos _ (by norm_num)]; exact_mod_cast h)
+  rw [bval_zero0] at k1; rw [bval_one] at k2
+  exact ⟨fa, k1, k2⟩
+
+/-- all hypotheses from the decidable conditions -/
+theorem hyp_of_sized {vw vh dx dy ax ay : F32} (h1 : Sized vw) (h2 : Sized vh) (h3 : Sized dx) (h4 : Sized dy)
+    (h5 : FracB ax) (h6 : FracB ay) : Hyp vw vh dx dy ax ay :=
+  ⟨(sized_spec h1).1, (sized_spec h2).1, (sized_spec h3).1, (sized_spec h4).1, fracB_spec h5, fracB_spec h6,
+    inRange_of_in30 (sized_spec h1).2 (sized_spec h2).2 (sized_spec h3).2 (sized_spec h4).2⟩
+
+
+/-! ## the headline theorems about `ViewBox.aspectMeet` / `aspectSlice` at `F32` against the `ℚ` instance -/
+
+/-- the exact reference: a rational viewBox whose width and height are the VALUES of the float width and
+    height `Size()` returns (so the comparison isolates the error of the fitting code) -/
+def Ref (v : ViewBox F32) (vq : ViewBox ℚ) : Prop :=
+  vq.maxX - vq.minX = val v.size.1 ∧ vq.maxY - vq.minY = val v.size.2
+
+/-- (c) "equals the target in at least one dimension", bit for bit: the minimum has value `0` (it is `+0` or
+    `-0`) and the maximum IS the target dimension -/
+def Touches (r : F32 × F32 × F32 × F32) (dx dy : F32) : Prop :=
+  (val r.1 = 0 ∧ r.2.2.1 = dx) ∨ (val r.2.1 = 0 ∧ r.2.2.2 = dy)
+
+/-- all four results finite -/
+def Fin4 (r : F32 × F32 × F32 × F32) : Prop := Fn r.1 ∧ Fn r.2.1 ∧ Fn r.2.2.1 ∧ Fn r.2.2.2
+
+/-- (d, alignment) each computed corner is the exact corner up to `6u` (minima) / `7u` (maxima) times
+    `target side + exact fitted side`, `u = 2^-24` -/
+def CornersNear (r : F32 × F32 × F32 × F32) (q : ℚ × ℚ × ℚ × ℚ) (dx dy : ℚ) : Prop :=
+  |val r.1 - q.1| ≤ 6 * u * (dx + (q.2.2.1 - q.1)) ∧ |val r.2.2.1 - q.2.2.1| ≤ 7 * u * (dx + (q.2.2.1 - q.1)) ∧
+  |val r.2.1 - q.2.1| ≤ 6 * u * (dy + (q.2.2.2 - q.2.1)) ∧ |val r.2.2.2 - q.2.2.2| ≤ 7 * u * (dy + (q.2.2.2 - q.2.1))
+
+/-- (d, meet) the computed rectangle lies within the target enlarged by `4u` of its size at the minima and
+    `5u` at the maxima -/
+def InsideNear (r : F32 × F32 × F32 × F32) (dx dy : ℚ) : Prop :=
+  -(4 * u * dx) ≤ val r.1 ∧ val r.2.2.1 ≤ (1 + 5 * u) * dx ∧ -(4 * u * dy) ≤ val r.2.1 ∧ val r.2.2.2 ≤ (1 + 5 * u) * dy
+
+/-- (d, slice) the computed rectangle covers the target up to `4u·(target side)` at the minima and
+    `6u·(target side + fitted side)` at the maxima -/
+def CoversNear (r : F32 × F32 × F32 × F32) (q : ℚ × ℚ × ℚ × ℚ) (dx dy : ℚ) : Prop :=
+  val r.1 ≤ 4 * u * dx ∧ dx - 6 * u * (dx + (q.2.2.1 - q.1)) ≤ val r.2.2.1 ∧
+  val r.2.1 ≤ 4 * u * dy ∧ dy - 6 * u * (dy + (q.2.2.2 - q.2.1)) ≤ val r.2.2.2
+
+theorem aspectMeet_f32 (v : ViewBox F32) (vq : ViewBox ℚ) (dx dy ax ay : F32) (href : Ref v vq)
+    (h : Hyp v.size.1 v.size.2 dx dy ax ay) :
+    Fin4 (v.aspectMeet dx dy ax ay) ∧
+    CornersNear (v.aspectMeet dx dy ax ay) (vq.aspectMeet (val dx) (val dy) (val ax) (val ay)) (val dx) (val dy) ∧
+    InsideNear (v.aspectMeet dx dy ax ay) (val dx) (val dy) ∧
+    Touches (v.aspectMeet dx dy ax ay) dx dy := by
+  have M := meet_f32 h
+  rw [aspectMeet_eq32, aspectMeet_eqQ, href.1, href.2]
+  unfold Fin4 CornersNear InsideNear Touches
+  simp only [add_sub_cancel_left, mul_comm _ (val ax), mul_comm _ (val ay)]
+  obtain ⟨i1, i2⟩ := M.x.inside M.fits.1
+  obtain ⟨j1, j2⟩ := M.y.inside M.fits.2
+  exact ⟨⟨M.x.fmn, M.y.fmn, M.x.fmx, M.y.fmx⟩, ⟨M.x.amin, M.x.amax, M.y.amin, M.y.amax⟩, ⟨i1, i2, j1, j2⟩, M.touch⟩
+
+theorem aspectSlice_f32 (v : ViewBox F32) (vq : ViewBox ℚ) (dx dy ax ay : F32) (href : Ref v vq)
+    (h : Hyp v.size.1 v.size.2 dx dy ax ay) :
+    Fin4 (v.aspectSlice dx dy ax ay) ∧
+    CornersNear (v.aspectSlice dx dy ax ay) (vq.aspectSlice (val dx) (val dy) (val ax) (val ay)) (val dx) (val dy) ∧
+    CoversNear (v.aspectSlice dx dy ax ay) (vq.aspectSlice (val dx) (val dy) (val ax) (val ay)) (val dx) (val dy) ∧
+    Touches (v.aspectSlice dx dy ax ay) dx dy := by
+  have M := slice_f32 h
+  rw [aspectSlice_eq32, aspectSlice_eqQ, href.1, href.2]
+  unfold Fin4 CornersNear CoversNear Touches
+  simp only [add_sub_cancel_left, mul_comm _ (val ax), mul_comm _ (val ay)]
+  obtain ⟨i1, i2⟩ := M.x.covers M.covers.1
+  obtain ⟨j1, j2⟩ := M.y.covers M.covers.2
+  exact ⟨⟨M.x.fmn, M.y.fmn, M.x.fmx, M.y.fmx⟩, ⟨M.x.amin, M.x.amax, M.y.amin, M.y.amax⟩, ⟨i1, i2, j1, j2⟩, M.touch⟩
+
+/-- the returned width and height (`max − min` of the float corners, exactly) against the exact ones -/
+theorem CornersNear.size {r : F32 × F32 × F32 × F32} {q : ℚ × ℚ × ℚ × ℚ} {dx dy : ℚ} (h : CornersNear r q dx dy) :
+    |(val r.2.2.1 - val r.1) - (q.2.2.1 - q.1)| ≤ 13 * u * (dx + (q.2.2.1 - q.1)) ∧
+    |(val r.2.2.2 - val r.2.1) - (q.2.2.2 - q.2.1)| ≤ 13 * u * (dy + (q.2.2.2 - q.2.1)) := by
+  obtain ⟨h1, h2, h3, h4⟩ := h
+  obtain ⟨a1, a2⟩ := abs_le.1 h1
+  obtain ⟨b1, b2⟩ := abs_le.1 h2
+  obtain ⟨c1, c2⟩ := abs_le.1 h3
+  obtain ⟨d1, d2⟩ := abs_le.1 h4
+  constructor
+  · exact abs_le.2 ⟨by linarith, by linarith⟩
+  · exact abs_le.2 ⟨by linarith, by linarith⟩
+
+/-- (b) in the `|·|` form: `|w − W| ≤ 3u·W`, `|h − H| ≤ 3u·H` for the size the code chooses -/
+theorem meet_size_err {vw vh dx dy ax ay : F32} (h : Hyp vw vh dx dy ax ay) :
+    |val (meetSize vw vh dx dy).1 - (meetSizeQ (val vw) (val vh) (val dx) (val dy)).1| ≤
+      3 * u * (meetSizeQ (val vw) (val vh) (val dx) (val dy)).1 ∧
+    |val (meetSize vw vh dx dy).2 - (meetSizeQ (val vw) (val vh) (val dx) (val dy)).2| ≤
+      3 * u * (meetSizeQ (val vw) (val vh) (val dx) (val dy)).2 := by
+  obtain ⟨n1, n2, _, _⟩ := meetSizeQ_facts h.hvw.2 h.hvh.2 h.hdx.2 h.hdy.2 h.range
+  have M := meet_f32 h
+  exact ⟨M.size.1.abs n1.pos.le, M.size.2.abs n2.pos.le⟩
+
+theorem slice_size_err {vw vh dx dy ax ay : F32} (h : Hyp vw vh dx dy ax ay) :
+    |val (sliceSize vw vh dx dy).1 - (sliceSizeQ (val vw) (val vh) (val dx) (val dy)).1| ≤
+      3 * u * (sliceSizeQ (val vw) (val vh) (val dx) (val dy)).1 ∧
+    |val (sliceSize vw vh dx dy).2 - (sliceSizeQ (val vw) (val vh) (val dx) (val dy)).2| ≤
+      3 * u * (sliceSizeQ (val vw) (val vh) (val dx) (val dy)).2 := by
+  obtain ⟨n1, n2, _, _⟩ := sliceSizeQ_facts h.hvw.2 h.hvh.2 h.hdx.2 h.hdy.2 h.range
+  have M := slice_f32 h
+  exact ⟨M.size.1.abs n1.pos.le, M.size.2.abs n2.pos.le⟩
+
+/-! ## `Size` -/
+
+/-- the float width and height are the correctly rounded differences: relative error `u`, never affected by
+    gradual underflow; finite when the exact difference does not exceed the largest float -/
+theorem size_f32 (v : ViewBox F32) (f1 : Fn v.minX) (f2 : Fn v.minY) (f3 : Fn v.maxX) (f4 : Fn v.maxY)
+    (hx : |val v.maxX - val v.minX| ≤ maxv) (hy : |val v.maxY - val v.minY| ≤ maxv) :
+    (Fn v.size.1 ∧ |val v.size.1 - (val v.maxX - val v.minX)| ≤ u * |val v.maxX - val v.minX|) ∧
+    (Fn v.size.2 ∧ |val v.size.2 - (val v.maxY - val v.minY)| ≤ u * |val v.maxY - val v.minY|) :=
+  ⟨sub_err f3 f1 hx, sub_err f4 f2 hy⟩
+
 end Ivg.Fit32
